@@ -84,14 +84,14 @@ DEFAULT_FINDINGS = [
      "what": "(repaired) a runtime error while evaluating an argument of a user function call leaked the callee context "
              "(createEnv: the context taken from the cache / created was neither released nor put back when store() threw; "
              "it is now handed back to the function's context cache)"},
-    {"property": "C15", "id": KF_L_SUB, "status": "fixed", "commit": "443d77e", "site": "blocc/parse_expression.cpp:ParseExpression::sum (also the other binary operators using assertType(result, ..., false))",
+    {"property": "C15", "id": KF_L_SUB, "status": "fixed", "commit": "565b1e8", "site": "blocc/parse_expression.cpp:ParseExpression::sum (also the other binary operators using assertType(result, ..., false))",
      "witness": "q9 = \"abc\" - 1;",
      "what": "a type error on the LEFT operand of a binary operator leaks the already parsed right operand "
              "(new OpSUBExpression(assertType(result,…,false), assertType(term(),…)): the right argument is evaluated first)"},
-    {"property": "C15", "id": KF_L_IF, "status": "fixed", "commit": "d070b9e", "site": "blocc/statement_if.cpp:IFStatement::parse",
+    {"property": "C15", "id": KF_L_IF, "status": "fixed", "commit": "96b2071", "site": "blocc/statement_if.cpp:IFStatement::parse",
      "witness": "if true then q9 = 1;     (text ends inside the IF block)",
      "what": "a parse error (e.g. end of text) inside the body of IF / ELSIF leaks the condition expression"},
-    {"property": "C15", "id": KF_L_RET, "status": "fixed", "commit": "c0de6cd", "site": "blocc/statement_return.cpp:RETURNStatement::parse",
+    {"property": "C15", "id": KF_L_RET, "status": "fixed", "commit": "4ec8435", "site": "blocc/statement_return.cpp:RETURNStatement::parse",
      "witness": "return      (text ends right after the keyword)",
      "what": "end of text right after `return` leaks the RETURNStatement (p.front() throws before the try block)"},
     {"property": "C15", "id": KF_L_MEMB, "status": "known", "site": "blocc/expression_item.cpp:ItemExpression::parse, blocc/member/member_*.cpp:parse",
